@@ -334,6 +334,23 @@ impl World {
 
     //--- children that are not hosted here
 
+    /// The identifiers of the certificate keys of such children.
+    pub fn foreign_key_ids(&self) -> Vec<String> {
+        self.foreign.values().flat_map(|f| f.keys.values()).map(|k| {
+            k.to_string()
+        }).collect()
+    }
+
+    /// Is this problem of the relying-party walk the missing publication
+    /// point of a child that is not hosted here?
+    pub fn foreign_point_problem(&self, problem: &str) -> bool {
+        self.foreign.values().flat_map(|f| f.keys.values()).any(|k| {
+            problem.eq_ignore_ascii_case(
+                &format!("ca {k}: manifest missing")
+            )
+        })
+    }
+
     /// ca_add_child for a child of another operator.
     pub fn add_foreign(
         &mut self, name: &str, parent: &str, res: &[String],
@@ -1837,13 +1854,8 @@ impl World {
         ) as i64;
         // (the publication point of a child that is not hosted here is
         // somewhere else: not finding it in this repository is no problem)
-        let foreign_keys: Vec<String> = self.foreign.values().flat_map(|f| {
-            f.keys.values().map(|k| k.to_string())
-        }).collect();
         let problems: Vec<String> = res.problems.iter().filter(|p| {
-            !foreign_keys.iter().any(|k| {
-                p.eq_ignore_ascii_case(&format!("ca {k}: manifest missing"))
-            })
+            !self.foreign_point_problem(p)
         }).cloned().collect();
         json!({
             "vrps": vrps, "problems": problems, "odd": odd,
